@@ -1,8 +1,12 @@
-REPO_COMMITS = ["0e45a8e"]
+REPO_COMMITS = ["0e45a8e", "f51d74e"]
 NOT_APPLICABLE = {}
 CHECKS = {
  "C05": dict(
   text="Held-on-what-was-observed: wrappers on stat.histogram and Binner.dohist judge every observed (hist, rev) pair against a NumPy/exact-rational membership reference over seeded edge-valued families, with the C and the Python engine compared bytewise and the workload repeated on an ASan+UBSan build. Exploration is the right level: the input space is unbounded and the deciding step is an oracle on real executions.",
   note="Trusts numpy floor/stable argsort and fractions.Fraction; data finite, bin size > 0, limits keep at least one datum; calls with a datum within rounding of a bin edge are skipped for the count comparison (counted in evidence).",
   technique="API-boundary monitor with independent reference oracle; differential C vs Python engine; ASan+UBSan replay of the workload"),
+ "C14": dict(
+  text="Held-on-what-was-observed: wrappers on Binner.dohist / Binner.calc_stats / stat.histogram(more, weights, nperbin) recompute every reported per-bin quantity directly from the members the independent C05 reference assigns to each bin (edges, centre, mean, population deviation, median, standard error, weighted count/mean/deviation/both errors, for x and the optional second variable) and the equal-occupancy layout (chunks of the stable-sorted data, merge of a short last bin, low/high, reverse indices in the original frame).",
+  note="Trusts numpy mean/std/median/stable argsort. Single-member bins: standard error and weighted errors unconstrained; bins with zero total weight unconstrained; edge-rounding calls skipped.",
+  technique="API-boundary monitor with direct recomputation oracle over seeded forced-occupancy workloads; ASan+UBSan replay"),
 }
